@@ -18,8 +18,9 @@ let () =
     run_cases file (fun _ -> init)
       (fun st _ toks ->
          let (st', r) = step st (parse_op toks) in
-         emit (Printf.sprintf "%s | %s %s" (res_str r) (dec_of_z st'.count)
-                 (String.concat "," (List.map (fun w -> Printf.sprintf "%08x" (int_of_z w)) st'.state)));
+         emit (Printf.sprintf "%s | %s %s | %s" (res_str r) (dec_of_z st'.count)
+                 (String.concat "," (List.map (fun w -> Printf.sprintf "%08x" (int_of_z w)) st'.state))
+                 (hex_of_bytes st'.buffer));
          st')
       (fun _ -> ())
   else
